@@ -72,7 +72,7 @@ def run(tier):
     one = [p for p in progs if len(p["hist"]) <= 1]
     more = [p for p in progs if len(p["hist"]) >= 2]
     rnd.shuffle(more)
-    sel = one + more[:(150 if tier == "quick" else 1500)]
+    sel = one + more[:(150 if tier == "quick" else 900)]
     items = [dict(hist=p["hist"], b=p["b"], verbose=(i % 5 == 0) * 1) for i, p in enumerate(sel)]
     traces = run_items(items)
     res.traces = res.evaluations = len(traces)
